@@ -4,6 +4,7 @@ package symgo
 // called), and native opaque types (time.Time).
 
 import (
+	"bytes"
 	"fmt"
 	"go/token"
 	"go/types"
@@ -37,7 +38,7 @@ var nativeFuncs = map[string]interface{}{
 	"strings.Compare": strings.Compare, "strings.Cut": strings.Cut, "strings.CutPrefix": strings.CutPrefix,
 	"strings.CutSuffix": strings.CutSuffix, "strings.SplitAfter": strings.SplitAfter, "strings.SplitAfterN": strings.SplitAfterN,
 	"strings.ToValidUTF8": strings.ToValidUTF8,
-	"strconv.Quote": strconv.Quote, "strconv.FormatBool": strconv.FormatBool, "strconv.FormatUint": strconv.FormatUint,
+	"strconv.Quote":       strconv.Quote, "strconv.FormatBool": strconv.FormatBool, "strconv.FormatUint": strconv.FormatUint,
 	"strconv.ParseBool": strconv.ParseBool, "strconv.ParseUint": strconv.ParseUint, "strconv.ParseFloat": strconv.ParseFloat,
 	"strconv.Unquote": strconv.Unquote, "strconv.FormatFloat": strconv.FormatFloat, "strconv.AppendInt": nil,
 	"path.Base": path.Base, "path.Dir": path.Dir, "path.Join": path.Join, "path.Clean": path.Clean, "path.Ext": path.Ext,
@@ -59,6 +60,10 @@ var nativeFuncs = map[string]interface{}{
 	"math/bits.TrailingZeros": bits.TrailingZeros, "math/bits.OnesCount64": bits.OnesCount64,
 	"time.Now": time.Now, "time.Since": time.Since, "time.Until": time.Until, "time.Unix": time.Unix, "time.Parse": time.Parse,
 	"time.ParseDuration": time.ParseDuration, "time.Date": nil, "time.UnixMilli": time.UnixMilli,
+	"bytes.Trim": bytes.Trim, "bytes.TrimSpace": bytes.TrimSpace, "bytes.TrimRight": bytes.TrimRight, "bytes.TrimLeft": bytes.TrimLeft,
+	"bytes.TrimPrefix": bytes.TrimPrefix, "bytes.TrimSuffix": bytes.TrimSuffix, "bytes.Split": bytes.Split, "bytes.Join": bytes.Join,
+	"bytes.Contains": bytes.Contains, "bytes.Equal": bytes.Equal, "bytes.HasPrefix": bytes.HasPrefix, "bytes.HasSuffix": bytes.HasSuffix,
+	"bytes.Index": bytes.Index, "bytes.ReplaceAll": bytes.ReplaceAll, "bytes.Fields": bytes.Fields, "bytes.Count": bytes.Count,
 	"regexp.MustCompile": regexp.MustCompile, "regexp.Compile": regexp.Compile, "regexp.QuoteMeta": regexp.QuoteMeta,
 	"regexp.MatchString": regexp.MatchString,
 }
